@@ -18,7 +18,12 @@ Theorem C19_known_roots_identity : forall W o g roots imports,
   build W o g roots imports =
     Some {| bg_kind := bg_kind g; bg_roots := bg_roots g; bg_slots := bg_slots g;
             bg_redirects := bg_redirects g; bg_imports := bg_imports g; bg_has_node := bg_has_node g;
-            bg_calls := []; bg_lock_sets := [] |}.
+            bg_calls := []; bg_lock_sets := [];
+            (* entries, redirects, roots, imports: unchanged, and no loader or locker call. With an npm
+               resolver the builder still asks it to resolve the empty set of requirements and takes
+               its verdict on the dependency graph *)
+            bg_npm_calls := match w_npm W with Some _ => [[]] | None => [] end;
+            bg_npm_dep_ok := match w_npm W with Some _ => true | None => bg_npm_dep_ok g end |}.
 Proof. exact build_known_roots_identity. Qed.
 Print Assumptions C19_known_roots_identity.
 
@@ -40,7 +45,7 @@ Definition c19_world : world :=
                                                 d_dyn := false; d_deno_types := false; d_attr := 0 |}, false)];
                                  wm_tdep := None |});
                 (2, WModule 2 {| wm_hash_raw := 0; wm_hash_text := 0; wm_media := MJson; wm_parse_ok := true; wm_kind := MkJs; wm_deps := []; wm_tdep := None |})];
-     w_resp_reload := []; w_http := []; w_lock := None; w_class := []; w_file := []; w_max_redirects := 10 |}.
+     w_resp_reload := []; w_http := []; w_lock := None; w_class := []; w_file := []; w_max_redirects := 10; w_npm := None |}.
 Definition c19_opts : bopts :=
   {| bo_kind := KAll; bo_is_dynamic := false; bo_skip_dynamic := false; bo_unstable_bytes := false;
      bo_unstable_text := false; bo_unstable_css := false |}.
